@@ -16,7 +16,7 @@
 #include "et_core.h"
 
 /* ---------- configuration ---------- */
-static int et_opt_stayopen = 1, et_opt_conc_reinit = 1;
+static int et_opt_stayopen = 1, et_opt_conc_reinit = 1, et_opt_reload_destroy = 1;
 
 static void et_make_cfg(const char *profile, vh_rng_t *g, uint64_t idx)
 {
@@ -27,7 +27,7 @@ static void et_make_cfg(const char *profile, vh_rng_t *g, uint64_t idx)
                                    2, 6 };
   memset(c, 0, sizeof(*c));
   c->profile         = strcmp(profile, "timers") == 0 ? ET_P_TIMERS : ET_P_STRESS;
-  c->backend         = (idx % 7 == 6) ? 0 : 1 + (int)(idx % 3);
+  c->backend         = 1 + (int)(idx % 3);
   c->tries           = 1 + (int)vh_below(g, 2);
   c->timeout_ms      = 250 + 50 * (int)vh_below(g, 2);
   c->maxtimeout_ms   = c->timeout_ms + (vh_chance(g, 1, 3) ? 100 : 0);
@@ -46,15 +46,20 @@ static void et_make_cfg(const char *profile, vh_rng_t *g, uint64_t idx)
     c->beh[i]      = ET_B_ANSWER;
     c->delay_ms[i] = 5 + (int)vh_below(g, 40);
   }
+  c->nsrv_max = c->profile == ET_P_STRESS ? 3 : 2;
   if (c->profile == ET_P_STRESS) {
+    if (idx % 7 == 6) {
+      c->backend = 0; /* ARES_EVSYS_DEFAULT */
+    }
     c->nclients            = (idx % 4 == 0) ? 2 + (int)vh_below(g, 2) : 2 + (int)vh_below(g, 7);
-    c->nops                = 30 + (int)vh_below(g, 50);
+    c->nops                = 40 + (int)vh_below(g, 120);
     c->stayopen            = et_opt_stayopen ? vh_chance(g, 1, 4) : 0;
     c->servers_from_resolvconf = vh_chance(g, 1, 4);
     c->destroy_outstanding = vh_chance(g, 1, 3);
     c->quiesce             = vh_chance(g, 1, 2);
     c->slow_cb_us          = vh_chance(g, 1, 4) ? 200 + (int)vh_below(g, 2000) : 0;
     c->reinit_mode         = (int)vh_below(g, 5);
+    c->reload_vs_destroy   = et_opt_reload_destroy && vh_chance(g, 1, 3);
     if (!et_opt_conc_reinit && (c->reinit_mode == 2 || c->reinit_mode == 4)) {
       c->reinit_mode = (c->reinit_mode == 2) ? 1 : 3;
     }
@@ -73,6 +78,9 @@ static void et_make_cfg(const char *profile, vh_rng_t *g, uint64_t idx)
     }
     c->weights[K_QUERY] = c->weights[K_QUERY] ? c->weights[K_QUERY] : 4; /* never a run without requests */
     c->weights[K_PAUSE] = 4 + (int)vh_below(g, 6);
+    if (c->reload_vs_destroy && c->reinit_mode < 3) {
+      c->reinit_mode = 3;
+    }
     if (c->servers_from_resolvconf) {
       c->weights[K_SETSRV_PORTS] = c->weights[K_SETSRV] = 0; /* leave the server list to the file */
       c->weights[K_CONFCHG] += 2;
@@ -86,9 +94,14 @@ static void et_make_cfg(const char *profile, vh_rng_t *g, uint64_t idx)
     c->second_client       = c->nclients == 2;
     c->conn_sit            = (int)((idx / 3) % 3);
     c->srv_sit             = (int)((idx / 9) % 3);
-    c->stayopen            = (c->conn_sit == ET_CONN_IDLE) ? 1 : vh_chance(g, 1, 3);
+    /* an idle connection that stays open: ARES_FLAG_STAYOPEN after an answered query, or - without the flag -
+     * after a query that ran into its timeout (idle connections are only closed at the START of the next
+     * processing pass, so the connection of the last query that timed out is left open while the event thread
+     * goes to sleep) */
+    c->stayopen            = (c->conn_sit == ET_CONN_IDLE) ? vh_chance(g, 1, 2) : vh_chance(g, 1, 3);
+    c->idle_after_timeout  = (c->conn_sit == ET_CONN_IDLE) && !c->stayopen;
     c->offset_us           = (int[]){ 0, 50, 1000, 10000, 30000 }[vh_below(g, 5)];
-    c->burst               = (c->conn_sit == ET_CONN_BUSY) ? vh_chance(g, 1, 2) : 0;
+    c->burst               = (c->conn_sit == ET_CONN_BUSY) ? vh_chance(g, 2, 3) : 0;
     c->nsrv                = 1 + (int)vh_below(g, 2);
     c->udp_max_queries     = 0;
     c->rotate              = 0;
@@ -157,7 +170,7 @@ static void *et_client_timers(void *arg)
   sp.chain_kind = -1;
   if (et_cfg.conn_sit == ET_CONN_IDLE) {
     int w;
-    snprintf(sp.name, sizeof(sp.name), "ok0.ex.test");
+    snprintf(sp.name, sizeof(sp.name), et_cfg.idle_after_timeout ? "sil0.ex.test" : "ok0.ex.test");
     t0 = et_now_ns();
     w  = et_issue(&sp, 0, et_channel, 0);
     et_client_log(c, K_QUERY, t0);
@@ -165,7 +178,7 @@ static void *et_client_timers(void *arg)
       et_sleep_us(200); /* the watchdog bounds this */
     }
   } else if (et_cfg.conn_sit == ET_CONN_BUSY) {
-    int n = et_cfg.burst ? 6 + (int)vh_below(&c->rng, 6) : 1;
+    int n = et_cfg.burst ? 8 + (int)vh_below(&c->rng, 8) : 1;
     for (i = 0; i < n; i++) {
       snprintf(sp.name, sizeof(sp.name), "sil%d.ex.test", i);
       sp.cb_sleep_us = et_cfg.slow_cb_us;
@@ -230,6 +243,10 @@ static void et_reset_state(void)
   atomic_store(&et_confchg_seen_gen, 0);
   atomic_store(&et_confchg_changed, 0);
   atomic_store(&et_lib_threads, 0);
+  atomic_store(&et_lib_thr_started, 0);
+  atomic_store(&et_lib_thr_finished, 0);
+  atomic_store(&et_lib_et_alive, 0);
+  atomic_store(&et_tramp_next, 0);
   for (i = 0; i < 3; i++) {
     for (j = 0; j < 2; j++) {
       atomic_store(&et_n_waits[i][j], 0);
@@ -331,7 +348,7 @@ static void et_run_case(const char *profile, uint64_t seed, uint64_t idx)
                                                               : "10.0.0.1:53");
   }
 
-  pthread_create(&th_resp, NULL, et_responder, NULL);
+  __real_pthread_create(&th_resp, NULL, et_responder, NULL);
   {
     /* the first library thread that sleeps is the event thread of the channel under test */
     int64_t t0 = et_now_ns();
@@ -339,7 +356,7 @@ static void et_run_case(const char *profile, uint64_t seed, uint64_t idx)
       et_sleep_us(100);
     }
   }
-  pthread_create(&th_mon, NULL, et_monitor, NULL);
+  __real_pthread_create(&th_mon, NULL, et_monitor, NULL);
   atomic_store(&et_inj_density, et_cfg.inj_density);
 
   pthread_barrier_init(&et_start_bar, NULL, (unsigned)et_cfg.nclients + 1);
@@ -347,7 +364,7 @@ static void et_run_case(const char *profile, uint64_t seed, uint64_t idx)
   for (i = 0; i < et_cfg.nclients; i++) {
     et_clients[i].id = i;
     vh_rng_seed(&et_clients[i].rng, et_case_seed ^ (0x1000 + (uint64_t)i) * 0x9e3779b97f4a7c15ULL);
-    pthread_create(&et_clients[i].th, NULL, et_cfg.profile == ET_P_TIMERS ? et_client_timers : et_client_stress,
+    __real_pthread_create(&et_clients[i].th, NULL, et_cfg.profile == ET_P_TIMERS ? et_client_timers : et_client_stress,
                    &et_clients[i]);
   }
   pthread_barrier_wait(&et_start_bar);
@@ -358,8 +375,7 @@ static void et_run_case(const char *profile, uint64_t seed, uint64_t idx)
   pthread_barrier_destroy(&et_q_bar);
 
   /* closing phase */
-  pre_destroy_confchg = et_cfg.profile == ET_P_STRESS && (et_cfg.reinit_mode == 3 || et_cfg.reinit_mode == 4) &&
-                        vh_chance(&g, 1, 2);
+  pre_destroy_confchg = et_cfg.profile == ET_P_STRESS && et_cfg.reload_vs_destroy;
   if (!et_cfg.destroy_outstanding) {
     while (atomic_load(&et_outstanding) > 0) {
       et_sleep_us(500); /* bounded by the watchdog (deadline / hang / hard limit) */
@@ -372,6 +388,27 @@ static void et_run_case(const char *profile, uint64_t seed, uint64_t idx)
       et_sleep_us((long)vh_below(&g, 2500));
     }
     vh_count("configchg.rewrite_before_destroy");
+  }
+  else {
+    /* ordinary runs: let a reload that is still in flight finish first (destroy racing a reload has its own
+     * sub-workload above) */
+    int64_t t0 = et_now_ns();
+    int     calm = 0;
+    while (calm < 2 && et_now_ns() - t0 < 3000000000LL) {
+      int slot = atomic_load(&et_main_cur_slot);
+      /* calm = no reload thread alive and the event thread asleep for >= 1 ms (a change notification that was
+       * pending would have woken it at once) */
+      if (et_reloads_in_flight() == 0 && slot >= 0 && atomic_load(&et_ring[slot].t_exit) == 0 &&
+          et_now_ns() - atomic_load(&et_ring[slot].t_enter) > 1000000) {
+        calm++;
+      } else {
+        calm = 0;
+      }
+      et_sleep_us(500);
+    }
+    if (calm < 2) {
+      vh_count("destroy.reload_possibly_in_flight");
+    }
   }
   atomic_store(&et_closing, 1);
   {
@@ -584,6 +621,11 @@ static void et_run_case(const char *profile, uint64_t seed, uint64_t idx)
   ET_CNT("configchg_hosts_rewrites", et_n_hosts_rewrites);
   ET_CNT("configchg_reloads_observed", et_n_confchg_observed);
   ET_CNT("configchg.inotify_redirected", et_inotify_redirects);
+  if ((et_cfg.reinit_mode == 3 || et_cfg.reinit_mode == 0) && atomic_load(&et_n_reload_threads)) {
+    /* nobody calls ares_reinit() in this run: every reload thread was started by the change monitor */
+    vh_count_n("configchg_reloads_observed", atomic_load(&et_n_reload_threads));
+  }
+  ET_CNT("reload_threads_run", et_n_reload_threads);
   ET_CNT("net.socket.udp", et_n_sock_udp);
   ET_CNT("net.socket.tcp", et_n_sock_tcp);
   ET_CNT("net.socket.closed_by_library", et_n_sock_close);
@@ -635,8 +677,10 @@ static void et_run_case(const char *profile, uint64_t seed, uint64_t idx)
                  (unsigned long long)npairs_total);
     if (et_cfg.profile == ET_P_TIMERS) {
       int p = atomic_load(&et_timers_probe);
-      vh_sb_printf(&sb, ",\"connection\":\"%s\",\"server\":\"%s\",\"offset_us\":%d,\"burst\":%d",
-                   et_conn_name[et_cfg.conn_sit], et_sit_name[et_cfg.srv_sit], et_cfg.offset_us, et_cfg.burst);
+      vh_sb_printf(&sb, ",\"connection\":\"%s\",\"server\":\"%s\",\"offset_us\":%d,\"burst\":%d,"
+                   "\"idle_after_timeout\":%d",
+                   et_conn_name[et_cfg.conn_sit], et_sit_name[et_cfg.srv_sit], et_cfg.offset_us, et_cfg.burst,
+                   et_cfg.idle_after_timeout);
       if (p >= 0) {
         vh_sb_printf(&sb, ",\"probe_status\":\"%s\",\"probe_ms\":%.1f",
                      ares_strerror(atomic_load(&et_reqs[p].cb_status)),
@@ -664,6 +708,7 @@ int main(int argc, char **argv)
   unsetenv("CARES_HOSTS");
   et_opt_stayopen    = (int)vh_opt_int(&a, "stayopen", 1);
   et_opt_conc_reinit = (int)vh_opt_int(&a, "conc_reinit", 1);
+  et_opt_reload_destroy = (int)vh_opt_int(&a, "reload_destroy", 1);
   if (strcmp(a.profile, "stress") != 0 && strcmp(a.profile, "timers") != 0) {
     fprintf(stderr, "unknown profile %s\n", a.profile);
     return 2;
